@@ -21,7 +21,7 @@ func init() {
 	register(&Property{
 		Meta: report.Meta{
 			Property:    "C12",
-			Explanation: "Structural rules on selector.Parse / resolve: (R1) kind totality — for every segment literal that Parse can produce, the kind it intends (identity, iterator, field, slice, index) is derived from the fields it sets, and resolve's dispatch predicates, evaluated on the abstract values of exactly those fields (constants, regex-derived minimum lengths), must select that kind on every path; (R2) nothing ignored — inside the loop over ALL segments a return with a nil error returns a nil node, a non-nil node is returned only after the loop is exhausted and is the current node; (R3) optional discipline — every failure exit of the field and index cases goes through the optional idiom (errIfNotOptional or a branch on Optional()), other kinds fail with a non-nil error; (R4) slice operands — resolveSliceIndices receives the segment's slice and the length of the very collection that is then sliced; (R5) Select is resolve(selector, subject, nil). Index/slice arithmetic (Python clamping, negative indexes) is a numeric clause and is not decided. (R7) the index case of resolve evaluated on a grid of (index, length) for lists and bytes against element i / length+i / failure; Node.Length() of a bytes node evaluates to -1. (R8) strconv conversions reachable from Parse in the package use base 10 and bit size 0 or 64. The loop stepping a MapIterator in resolve adds the value returned by Next on every step that does not fail. No Convert in package selector narrows a 64-bit integer; a loop computing n = n*c + d compares n (or the length of its text) with a constant. In the iterator case of resolve the cursor is left unchanged only on paths where its kind is known to be list. Each accessor of segment returns recv.<field> (or recv.<field>[:]) on its every path. (R4) every latch or success path of resolve that dispatched a slice segment contains a call of resolveSliceIndices. (R7) the byte loaded from AsBytes()[i] in the index case flows through conversions only into basicnode.NewInt.",
+			Explanation: "Structural rules on selector.Parse / resolve: (R1) kind totality — for every segment literal that Parse can produce, the kind it intends (identity, iterator, field, slice, index) is derived from the fields it sets, and resolve's dispatch predicates, evaluated on the abstract values of exactly those fields (constants, regex-derived minimum lengths), must select that kind on every path; (R2) nothing ignored — inside the loop over ALL segments a return with a nil error returns a nil node, a non-nil node is returned only after the loop is exhausted and is the current node; (R3) optional discipline — every failure exit of the field and index cases goes through the optional idiom (errIfNotOptional or a branch on Optional()), other kinds fail with a non-nil error; (R4) slice operands — resolveSliceIndices receives the segment's slice and the length of the very collection that is then sliced; (R5) Select is resolve(selector, subject, nil). Index/slice arithmetic (Python clamping, negative indexes) is a numeric clause and is not decided. (R7) the index case of resolve evaluated on a grid of (index, length) for lists and bytes against element i / length+i / failure; Node.Length() of a bytes node evaluates to -1. (R8) strconv conversions reachable from Parse in the package use base 10 and bit size 0 or 64. The loop stepping a MapIterator in resolve adds the value returned by Next on every step that does not fail. No Convert in package selector narrows a 64-bit integer; a loop computing n = n*c + d compares n (or the length of its text) with a constant. In the iterator case of resolve the cursor is left unchanged only on paths where its kind is known to be list. Each accessor of segment returns recv.<field> (or recv.<field>[:]) on its every path. (R4) every latch or success path of resolve that dispatched a slice segment contains a call of resolveSliceIndices. (R7) the byte loaded from AsBytes()[i] in the index case flows through conversions only into basicnode.NewInt. (R3) a success path of the iterator or slice case inside the loop that returns a nil node carries a positive nil fact on the cursor or a positive Kind() == Kind_Null fact.",
 			Assumptions: []string{"go-ipld-prime Node.Kind/Length/LookupBy* contracts", "regexp/syntax minimum-length computation is exact for the three regex constants"},
 			Trusted:     []string{"golang.org/x/tools/go/ssa v0.29.0", "regexp/syntax", "go-ipld-prime"},
 			NotDecided:  []string{"resolveSliceIndices arithmetic (clamping, negative indexes)", "negative index arithmetic in the index case", "values returned by go-ipld-prime lookups"},
@@ -221,6 +221,22 @@ func runC12(x *Ctx) {
 		k := dispatchKind(p, elem)
 		o, ct := p.ErrorOutcome()
 		if o == paths.Success {
+			// 'no value' from an optional iterator or slice segment is the answer for a missing value only (a nil or
+			// null cursor): on a value of the wrong kind these segments fail, optional or not
+			if rs := p.Results(); (k == "iterator" || k == "slice") && len(rs) > 0 && rs[0] != nil && rs[0].IsNil() {
+				missing := false
+				for _, fc := range p.Facts {
+					if sub := paths.NilCheckOf(fc.Atom); sub != nil && fc.Pol && (sub.Op == "load" || sub.Op == "loopphi" || sub.Op == "phi") {
+						missing = true
+					}
+					if kv, okK := x.kindConst("Kind_Null"); okK && fc.Pol && fc.Atom.Op == "eq" && strings.Contains(fc.Atom.String(), "Node.Kind]") && strings.Contains(fc.Atom.String(), fmt.Sprintf("const(%d)", kv)) {
+						missing = true
+					}
+				}
+				if !missing {
+					bad += x.P.Pos(p.Ret.Pos()) + ": the " + k + " case answers 'no value' for a cursor that is not known to be nil or null: an optional " + k + " segment on a value of the wrong kind must fail\n"
+				}
+			}
 			continue
 		}
 		kindsFail[k]++
